@@ -152,14 +152,14 @@ theorem execTrigger_ok (nested : Nested) (hn : AuditSpec nested) (t : Trig) (old
     rw [hw] at h; simp only at h
     simpa [bodyEntries] using runActions_ok nested hn _ _ _ _ _ _ ht h
   | some w =>
-    rw [hw] at h; simp only at h ⊢
-    revert h
-    cases evalWhen w old new with
-    | error e => intro h; simp at h
+    rw [hw] at h; simp only at h
+    cases he : evalWhen w old new with
+    | error e => rw [he] at h; simp at h
     | ok b =>
+      rw [he] at h
       cases b with
-      | false => intro h; simp at h; subst h; simp
-      | true => intro h; simpa [bodyEntries] using runActions_ok nested hn _ _ _ _ _ _ ht h
+      | false => simp only [he]; simp at h; subst h; simp
+      | true => simp only [he]; simpa [bodyEntries] using runActions_ok nested hn _ _ _ _ _ _ ht h
 
 /-- granularity and `UPDATE OF` gate of the row loops -/
 def rowGate (t : Trig) (old new : Option Row) : Bool :=
@@ -179,9 +179,16 @@ theorem fireRowLoop_cons (nested : Nested) (old new : Option Row) (t : Trig) (ts
         | (st', .ok ()) => fireRowLoop nested old new ts st'
       else fireRowLoop nested old new ts st := by
   by_cases hg : (t.gran == Gran.row) = true
-  · cases old <;> cases new <;> simp [fireRowLoop, rowGate, hg]
-    rename_i o n
-    by_cases hs : shouldFireUpdateOf t o n = true <;> simp [hs]
+  · cases old with
+    | none => cases new <;> (simp [fireRowLoop, rowGate, hg]; try rfl)
+    | some o =>
+      cases new with
+      | none => simp [fireRowLoop, rowGate, hg]; try rfl
+      | some n =>
+        by_cases hs : shouldFireUpdateOf t o n = true
+        · simp [fireRowLoop, rowGate, hg, hs]; try rfl
+        · have hs' : shouldFireUpdateOf t o n = false := by simpa using hs
+          simp [fireRowLoop, rowGate, hg, hs']
   · have hg' : (t.gran == Gran.row) = false := by simpa using hg
     simp [fireRowLoop, rowGate, hg']
 
@@ -299,7 +306,7 @@ theorem fireStmtLoop_ok (nested : Nested) (hn : AuditSpec nested) :
 
 theorem auditOnly_filter (ts : List Trig) (p : Trig → Bool) (h : AuditOnly ts) :
     AuditOnly (ts.filter p) :=
-  fun t ht => h t (List.mem_of_mem_filter ht)
+  fun t ht => h t (List.mem_filter.mp ht).1
 
 theorem auditOnly_find (cfg : Cfg) (tbl : Nat) (tm : Timing) (ev : Event) (h : AuditOnly cfg.trigs) :
     AuditOnly (findTriggers cfg tbl tm ev) := by
